@@ -113,6 +113,7 @@ type Schema struct {
 	Fields []Field `json:"fields,omitempty"`
 	Alts   []Alt   `json:"alts,omitempty"`  // ver: entitywrapper versions, sorted by tag
 	Wrap   string  `json:"wrap,omitempty"`  // ver: registered type name (TypeName())
+	Go     string  `json:"gotype,omitempty"` // drop: the Go type whose UnmarshalMsg copies nothing back
 }
 type Entry struct {
 	Name     string  `json:"name"` // pkgname.Type
@@ -145,6 +146,7 @@ type pkgInfo struct {
 	shims      map[string]string            // type with hand-written MarshalMsg `d := shadow(*x); return d.MarshalMsg(o)` -> shadow
 	wrappers   map[string]map[string]string // wrapper type -> version tag -> Go type (entitywrapper.RegisterWrapper)
 	wrapName   map[string]string            // wrapper type -> TypeName()
+	shimCopy   map[string]map[string]bool   // shim type -> fields its UnmarshalMsg copies back from the shadow ("*" = all)
 }
 
 // scanPkg finds the delegation shims and the entitywrapper registrations of a package (syntax).
@@ -152,6 +154,7 @@ func scanPkg(pi *pkgInfo) {
 	pi.shims = map[string]string{}
 	pi.wrappers = map[string]map[string]string{}
 	pi.wrapName = map[string]string{}
+	pi.shimCopy = map[string]map[string]bool{}
 	recvName := func(fd *ast.FuncDecl) (string, string) {
 		if fd.Recv == nil || len(fd.Recv.List) != 1 {
 			return "", ""
@@ -202,6 +205,37 @@ func scanPkg(pi *pkgInfo) {
 						}
 					}
 				}
+			}
+			if tn != "" && fd.Name.Name == "UnmarshalMsg" && rv != "" {
+				// which fields come back from the shadow value: `*x = T(*d)` (all) or `x.F = d.F`
+				cp := map[string]bool{}
+				for _, st := range fd.Body.List {
+					as, ok := st.(*ast.AssignStmt)
+					if !ok || as.Tok != token.ASSIGN || len(as.Lhs) != 1 || len(as.Rhs) != 1 {
+						continue
+					}
+					if star, ok := as.Lhs[0].(*ast.StarExpr); ok {
+						if id, ok := star.X.(*ast.Ident); ok && id.Name == rv {
+							if call, ok := as.Rhs[0].(*ast.CallExpr); ok && len(call.Args) == 1 {
+								if fn, ok := call.Fun.(*ast.Ident); ok && fn.Name == tn {
+									if _, ok := call.Args[0].(*ast.StarExpr); ok {
+										cp["*"] = true
+									}
+								}
+							}
+						}
+					}
+					if ls, ok := as.Lhs[0].(*ast.SelectorExpr); ok {
+						if id, ok := ls.X.(*ast.Ident); ok && id.Name == rv {
+							if rs, ok := as.Rhs[0].(*ast.SelectorExpr); ok && rs.Sel.Name == ls.Sel.Name {
+								if _, ok := rs.X.(*ast.Ident); ok {
+									cp[ls.Sel.Name] = true
+								}
+							}
+						}
+					}
+				}
+				pi.shimCopy[tn] = cp
 			}
 			if tn != "" && fd.Name.Name == "TypeName" && len(fd.Body.List) == 1 {
 				if rs, ok := fd.Body.List[0].(*ast.ReturnStmt); ok && len(rs.Results) == 1 {
@@ -393,7 +427,27 @@ func derive(t types.Type, stack []string, unexp bool) (s *Schema) {
 					if so == nil || types.TypeString(so.Type().Underlying(), nil) != types.TypeString(x.Underlying(), nil) {
 						panic(unsupported{"shim " + sh + " of " + full + " has a different underlying type"})
 					}
-					return derive(so.Type().Underlying(), append(stack, full), pi.unexported)
+					inner := derive(so.Type().Underlying(), append(stack, full), pi.unexported)
+					cp := pi.shimCopy[o.Name()]
+					if cp == nil {
+						panic(unsupported{"shim " + full + " without a hand-written UnmarshalMsg"})
+					}
+					if cp["*"] || inner.K != "struct" {
+						return inner
+					}
+					n := 0
+					for _, f := range inner.Fields {
+						if cp[f.Go] {
+							n++
+						}
+					}
+					switch {
+					case n == len(inner.Fields):
+						return inner
+					case n == 0:
+						return &Schema{K: "drop", Elem: inner, Go: full}
+					}
+					panic(unsupported{"UnmarshalMsg of " + full + " copies back only some fields of its shadow value"})
 				}
 				if vs, ok := pi.wrappers[o.Name()]; ok && f.Pkg() != nil && f.Pkg().Path() == "0chain.net/core/util/entitywrapper" {
 					s := &Schema{K: "ver", Wrap: pi.wrapName[o.Name()]}
@@ -460,6 +514,8 @@ func coq(s *Schema, ind string) string {
 		return "(TMap " + coq(s.Elem, ind) + ")"
 	case "ptr":
 		return "(TPtr " + coq(s.Elem, ind) + ")"
+	case "drop":
+		return "(TDrop " + coq(s.Elem, ind) + ")"
 	case "ver":
 		var as []string
 		for _, a := range s.Alts {
@@ -657,7 +713,7 @@ func main() {
 	// ---- Coq ----
 	var b strings.Builder
 	b.WriteString("(* Generated by harness/translators/msgpschema from the msgp generated types of the source tree; do not edit. *)\n")
-	b.WriteString("From Coq Require Import List ZArith String.\nFrom ZC Require Import Model.Msgp.\nImport ListNotations.\nOpen Scope string_scope.\n\n")
+	b.WriteString("From Coq Require Import List ZArith String.\nFrom ZC Require Import Model.Msgp.\nImport ListNotations.\nLocal Open Scope string_scope.\n\n")
 	b.WriteString("Definition mk (s : string) : list Z := mp_of_string s.\n\n")
 	var ok, un []string
 	for _, e := range entries {
